@@ -1,9 +1,9 @@
-\* quick, exhaustive: every sequence of <= 2 merge sets of <= 2 indices out of <= 4, condense or not
+\* simulation: <= 5 merge sets of <= 4 indices out of <= 6
 SPECIFICATION Spec
 CONSTANTS
-  MaxN = 4
-  MaxSets = 2
-  MaxLen = 2
+  MaxN = 6
+  MaxSets = 5
+  MaxLen = 4
   Mutant = "none"
 INVARIANT TypeOK
 INVARIANT Downwards
